@@ -1623,6 +1623,10 @@ func (ck *Check) notInGroupPropagation(rule string) {
 // *NodeNotInNodeGroup type tests, the frame returns e itself and does not continue looping.
 func (ck *Check) propagates(rule, key string, fr *ssa.Function, ctx *Ctx, call *ssa.Call, e ssa.Value, errIdx int) {
 	a := ck.A
+	if sat, err := Satisfiable(ctx.PC(call)); err == nil && !sat {
+		ck.ok(rule, key, ck.P.instrPos(call), funcID(fr), "whenever this call yields *NodeNotInNodeGroup the frame returns it unchanged", "unreachable call (path condition unsatisfiable)")
+		return
+	}
 	// carriers: e and φs fed by e
 	carriers := []ssa.Value{e}
 	onlyPhi := true
